@@ -41,9 +41,13 @@ package model
 //@ func (*T0x0200).Parse
 //@   requires hook: t.T0x0200AdditionDetails.CustomAdditionContentFunc == nil
 
+// C08 for batches: every item of a 0x0704 batch is decoded into its own record - the additional-information table of
+// the item being appended is not the table of any item appended before it (checked at the append, every iteration)
 //@ func (*T0x0704).Parse
 //@   loop 1 invariant start: 3 <= start && start <= len(body)
 //@   loop 1 invariant i: 0 <= i
+//@   loop 1 invariant seen: forall(a, 0, len(t.Items), allocated(t.Items[a].T0x0200AdditionDetails.Additions))
+//@   precall append C08.own: forall(a, 0, len(t.Items), t.Items[a].T0x0200AdditionDetails.Additions == nil || t.Items[a].T0x0200AdditionDetails.Additions != item.T0x0200AdditionDetails.Additions)
 //@   loop 1 decreases int(t.Num) - i
 
 //@ func (*T0x1205).Parse
